@@ -219,9 +219,9 @@ func isProtoWrapper(q string) bool {
 
 // frozenPtrGuard: block dominated by the false edge of `*w.frozen` for wrapper base w.
 func frozenPtrGuard(fn *ssa.Function, b *ssa.BasicBlock, roots []base) bool {
-	for _, pc := range pathConds(b) {
-		cond, neg := stripNot(pc.If.Cond)
-		if pc.Branch != neg {
+	for _, pf := range pathFacts(b) {
+		cond, neg := pf.Cond, false
+		if pf.Truth != neg {
 			continue // frozen is true on this path
 		}
 		// predicate helper: m.isFrozen() whose body returns *m.frozen
